@@ -24,29 +24,34 @@ RULE = (
     "the compiler map, .data scaling}; the relation of every derived circuit is re-checked after each "
     "step; 4 flags; distinct = (pipeline structure, history signature); non-trivial = the pipeline has a "
     "learnable tensor and >= 1 derived circuit"
-    " Also: twin pairs, frozen (non-learnable, randomly initialised) tensors, eval() / no_grad toggles between updates, operator relations recomputed from the operands' reference values;"
+    " Also: twin pairs (mixed leaves, and `twin-mul`: one leaf family per pair, all 8 families cycled), frozen (non-learnable, randomly initialised) tensors, eval() / no_grad toggles between updates, operator relations recomputed from the operands' reference values;"
 )
 EXHAUSTIVE_SUBSPACES = ["relation of every circuit of the pipeline re-checked after every single step"]
 ASSUMPTIONS = ["reference interpreter vf/ref.py", "constrained raw leaves pushed out of their domain by a gradient step are re-drawn in place (counted as an update)"]
 FLOOR = {"upd:sgd-operand": 1, "upd:adam-derived": 1, "upd:reset-operand": 1, "upd:reset-derived": 1, "upd:load-state-dict": 1, "upd:inplace": 1,
-         "upd:scale": 1, "upd:toggle-eval": 1, "ccp:pointer-fold-idx": 1, "relations_checked": 200, "storage_checked": 20}
+         "upd:scale": 1, "upd:toggle-eval": 1, "ccp:pointer-fold-idx": 1, "relations_checked": 200, "storage_checked": 20,
+         "twin-leaf:cat:probs_raw": 1, "twin-leaf:cat:logits": 1, "twin-leaf:embedding": 1, "twin-leaf:gaussian": 1, "twin-leaf:poly": 1}
 
 STEPS = ["sgd-operand", "adam-derived", "reset-operand", "reset-derived", "load-state-dict", "inplace", "scale", "toggle-eval", "no-grad-eval"]
 
 
 def plan(tier, seed):
     n = 10 if tier == "quick" else 600
-    return [{"kind": "pipe", "pipe": kind, "k": k, "seed": seed} for kind in pipes.PIPE_KINDS for k in range(n)]
+    # twin-mul: 3 cases per leaf family in the quick tier (some architectures are refused by multiply)
+    return [{"kind": "pipe", "pipe": kind, "k": k, "seed": seed} for kind in pipes.PIPE_KINDS for k in range(max(n, 24) if kind == "twin-mul" else n)]
 
 
 def run_case(case) -> Result:
     res = Result()
     rng = case_rng(ID, case["seed"], ("pipe", case["pipe"], case["k"]))
-    built = C.build_or_refuse(res, lambda: pipes.gen_pipeline(rng, case["pipe"]))
+    over = {"leaf": pipes.TWIN_LEAVES[case["k"] % len(pipes.TWIN_LEAVES)]} if case["pipe"] == "twin-mul" else {}
+    built = C.build_or_refuse(res, lambda: pipes.gen_pipeline(rng, case["pipe"], **over))
     if built is None:
         return res
     root, info = built
     domains = info["domains"]
+    if "leaf" in info:
+        res.features.add("twin-leaf:" + ":".join(str(x) for x in info["leaf"] if x))
     nrng = np_rng(rng)
     circuits = tie.pipeline_circuits(root)
     derived = [c for c in circuits if c.operation is not None]
